@@ -9,6 +9,7 @@ BB = "androguard/decompiler/basic_blocks.py"
 GR = "androguard/decompiler/graph.py"
 WR = "androguard/decompiler/writer.py"
 META = {
+    "technique": "bounded stand-in: the statement's finite scope (2-3 condition chains x truth assignments) enumerated on the real merge/print code",
     "level": "exploration",
     "partial": True,
     "level_text": "The statement's own finite quantifier, decided exhaustively on the real code: every acyclic condition-chain graph "
